@@ -41,6 +41,10 @@ Forms == {
    Bin("+", B, Proj(A, TX)), Bin(">", Proj(A, TX), Num(2)), Proj(Bin(">", A, Num(2)), TX), Proj(Num(7), TX),
    Lit(TX, Num(4)), Lit(TX, Bin("-", Bin("*", Num(5), Num(2)), Num(9))), Lit(TOf("b"), Num(42)), Lit(TI, Bin("+", Bin("/", Num(100), Num(2)), Num(50))), Lit(TX, Un("-", Num(3))), Bin("+", Lit(TX, Num(4)), A),
    Bin("+", A, Lit(TX, Num(4))),
+   \* sums of anonymous typed literals of ONE type (folded into one constant), also next to an input of that type
+   Bin("+", Lit(TX, Num(3)), Lit(TX, Num(4))), Bin("+", Bin("+", Lit(TX, Num(3)), Lit(TX, Num(4))), Lit(TX, Num(5))), Bin("+", Lit(TX, Num(2147483647)), Lit(TX, Num(1))),
+   Bin("+", Lit(TX, Num(3)), Lit(TX, Num(-3))), Bin("+", Lit(TA, Num(3)), A), Bin("+", Bin("+", Lit(TA, Num(3)), A), Lit(TA, Num(4))), Bin("-", Lit(TX, Num(3)), Lit(TX, Num(4))),
+   Bin("*", Bin("+", Lit(TX, Num(3)), Lit(TX, Num(4))), A),
    CondE(Bin(">", A, Num(2)), Num(1)), CondE(Bin(">", A, Num(2)), Num(7)), CondE(Bin(">", A, Num(2)), B), CondE(Bin(">", A, B), A),
    CondE(Bin("==", A, B), C), CondE(Bin("<=", A, Num(0)), Bin("+", B, C)), CondE(Bin("!=", A, B), Num(-5)),
    CondE(Bin(">", Bin("+", A, B), Num(2)), C), Bin("+", CondE(Bin(">", A, Num(2)), B), C),
@@ -59,7 +63,13 @@ Forms == {
    Bin("+", A, Num(2147483647)), Bin("*", A, Num(65536)), Bin("-", Num(0), A), Bin("/", Num(100), A), Bin("%", Num(-7), A),
    Bin("**", Num(2), A), Bin("<<", Num(1), A), Bin(">>", Num(-8), A), Bin(">", Num(3), A), Bin("==", Num(0), A)
  }
+\* conditions the compiler evaluates itself (constant comparisons) and conditions given as the NAME of a comparison result
+CForms == {CondE(Bin(">", Num(3), Num(2)), B), CondE(Bin(">", Num(2), Num(3)), B), CondE(Bin(">", Num(3), Num(2)), Num(7)), CondE(Bin("==", Num(2), Num(3)), Num(7)),
+           CondE(Bin(">", Ref("k"), Num(2)), B), CondE(Bin("<=", Ref("k"), Num(2)), Bin("+", B, C))}
 FormsP == {P("form", In3(5, -3, 7) \o <<R(e)>>) : e \in Forms}
+     \cup {P("form", In3(5, -3, 7) \o <<SInt("k", Num(3)), R(e)>>) : e \in CForms}
+     \cup {P("form", In3(5, -3, 7) \o <<SLet("Signal", "g", Bin(">", A, Num(2))), R(CondE(Ref("g"), v))>>) : v \in {B, Num(5), Bin("+", B, C)}}
+     \cup {P("form", In3(5, -3, 7) \o <<SLet("Signal", "g", Bin("&&", Bin(">", A, Num(2)), Bin("<", B, Num(5)))), R(CondE(Ref("g"), C)), SLet("Signal", "h", Bin("+", Ref("g"), Num(1)))>>)}
 
 \* sharing patterns: values used twice, same-type triangles, wire-merge chains, multiple outputs
 Share == {
